@@ -267,6 +267,16 @@ def check_window_object(name, N, kw):
     return bad
 
 
+def check_window_object_pair(name, N, kw1, kw2):
+    """a Window reports the ENBW of ITS samples whatever was constructed before it in the same process"""
+    import spectrum
+    try:
+        spectrum.Window(N, name, **kw1)
+    except Exception:
+        pass
+    return [(k.replace('window_object/', 'window_object_after_another/'), w) for k, w in check_window_object(name, N, kw2)]
+
+
 PROBE = {'alpha': (0.75, 3.5), 'beta': (2.0, 9.5), 'r': (0.25, 0.75), 'mode': ('symmetric', 'periodic'),
          'attenuation': (60, 90), 'nbar': (3, 5), 'sll': (-40.0, -25.0)}
 
@@ -342,6 +352,8 @@ def replay(rep):
         return not check_window_object(r['name'], r['N'], kw_from_json(r.get('kwargs', {})))
     if fn == 'factory':
         return not check_factory(r['name'], r['N'])
+    if fn == 'WindowPair':
+        return not check_window_object_pair(r['name'], r['N'], kw_from_json(r.get('kwargs1', {})), kw_from_json(r.get('kwargs', {})))
     return True
 
 
@@ -661,6 +673,11 @@ def run(ctx):
             ctx.case(('object', name, N, tuple(sorted(kw.items()))), nontrivial=(N >= 3)); ctx.count('search/object')
             for key, what in check_window_object(name, N, kw):
                 ctx.violation(key, what, {'function': 'Window', 'name': name, 'N': N, 'kwargs': kw_to_json(kw)})
+            if name in PARAMS:
+                kw1 = draw_params(rng, name, N, 'lo'); kw2 = draw_params(rng, name, N, 'hi')
+                ctx.case(('object-pair', name, N, tuple(sorted(kw1.items())), tuple(sorted(kw2.items()))), nontrivial=(N >= 3)); ctx.count('search/object-pair')
+                for key, what in check_window_object_pair(name, N, kw1, kw2):
+                    ctx.violation(key, what, {'function': 'WindowPair', 'name': name, 'N': N, 'kwargs1': kw_to_json(kw1), 'kwargs': kw_to_json(kw2)})
     lap('search')
     # names are case-insensitive in the factory, unknown names are refused by factory and object
     for nm in ('HANN', 'Kaiser'):
